@@ -321,6 +321,15 @@ def gen(rng, tier):
                 us = [(1 << ub) - 1, (d << (ub - db)) | rng.randrange(1 << max(1, ub - db)), (1 << (ub - 1)) + rng.randrange(1 << 64)]
                 for u in (us if thorough else [us[0], rng.choice(us[1:])]):
                     E.api(u, d)
+    # ---- zero and tiny dividends against multi-digit divisors (2^k, 2^k ± 1, random) through every op: a fast path keyed on
+    #      the divisor's shape must still treat a zero dividend as an exact multiple (C03-h1: div_ceil via trailing_zeros)
+    for d in [1 << 64, (1 << 64) + 1, 1 << 65, 1 << 128, (1 << 128) - 1, 1 << 200, big(rng, 3), B - 1, 2]:
+        for a in (0, 1, d - 1, d, d + 1, 2 * d):
+            for op in U_OPS:
+                E.reqs.append("C03 %s %s %s" % (op, wu(a), wu(d)))
+            for op in I_OPS:
+                sa, sd = rng.choice(SIGNS)
+                E.reqs.append("C03 %s %s %s" % (op, wi(sa * a), wi(sd * d)))
     return E.reqs
 
 
